@@ -2,7 +2,7 @@
 import itertools
 from .common import *
 
-METHODS = ["GET", "GET", "GET", "POST", "HEAD", "PUT", "PATCH", "DELETE", "OPTIONS", "TRACE", "PURGE", "get", "MKCOL"]
+METHODS = ["GET", "GET", "GET", "POST", "HEAD", "PUT", "PATCH", "DELETE", "OPTIONS", "TRACE", "PURGE", "get", "MKCOL", "purge", "Purge", "mkcol"]
 LITS = [b"a", b"b", b"users", b"api", b"v1", b"", b"x.y", b"**x", b"*x", b"a:b"]
 PNAMES = [b"id", b"x", b"name", b"", b"id"]
 
@@ -102,6 +102,25 @@ def cases(seed, tier):
         regs = [(m, l_) for l_ in lits] + ([(m, b"/**")] if r.random() < 0.5 else []) + [(m, b"/:p")]
         r.shuffle(regs)
         qs = [(m, l_) for l_ in lits] + [(m, lits[3] + b"y")]
+        yield regs, qs
+    # deep paths and patterns (15 to 20 segments): one segment per `:name` / `*`, nothing joined, nothing cut off
+    for _ in range(8 if tier == "quick" else 300):
+        regs, qs = [], []
+        for depth in (15, 16, 17, 18, 20):
+            lits = [b"s%d" % i for i in range(depth)]
+            base = b"/" + b"/".join(lits)
+            for last in (b":id", b"*", b"**", lits[-1]):
+                regs.append(("GET", b"/" + b"/".join(lits[:-1] + [last])))
+            qs += [("GET", base), ("GET", base + b"/extra"), ("GET", base + b"/extra/more"), ("GET", b"/" + b"/".join(lits[:-1])),
+                   ("GET", b"/" + b"/".join(lits[:-1] + [b"other"]))]
+        r.shuffle(regs)
+        yield regs, qs
+    # the same table under custom methods that differ only in letter case: separate methods
+    for _ in range(6 if tier == "quick" else 200):
+        pats = [gen_pattern(r) for _ in range(4)]
+        ms = ["PURGE", "purge", "Purge"]
+        regs = [(r.choice(ms), p_) for p_ in pats for _ in range(2)]
+        qs = [(m_, gen_path_for(r, p_)) for p_ in pats for m_ in ms]
         yield regs, qs
     n = 1500 if tier == "quick" else 60000
     for _ in range(n):
